@@ -248,6 +248,10 @@ func (d *driver) judge(ref *refChain, res map[cfg]*runResult, x *runResult, only
 			k.Against = y.Cfg
 		}
 		sig["kind"] = kind
+		if comp == "execute-result" && strings.Contains(detail, "?") {
+			// ExecuteResult lists bytes that are not a transaction of the block
+			sig["shape"] = "result-lists-bytes-not-in-block"
+		}
 		if _, ok := sig["site"]; !ok {
 			sig["site"] = siteOf(comp)
 		}
